@@ -3,6 +3,15 @@
 use signalo_sources::{cache::Cache, chain::Chain, constant::Constant, cycle::Cycle, from_iter::FromIter, increment::Increment,
     into_iter::IntoIter, pad, peek::Peek, repeat::Repeat, skip::Skip, take::Take};
 use signalo_traits::Source;
+use std::cell::RefCell;
+use std::collections::VecDeque;
+use std::rc::Rc;
+
+/// list leaf whose remaining items can be inspected after the run (a clone is an independent copy)
+pub struct Leaf(pub Rc<RefCell<VecDeque<i64>>>);
+impl Clone for Leaf { fn clone(&self) -> Leaf { Leaf(Rc::new(RefCell::new(self.0.borrow().clone()))) } }
+impl Iterator for Leaf { type Item = i64; fn next(&mut self) -> Option<i64> { self.0.borrow_mut().pop_front() } }
+pub type Leaves = Vec<Rc<RefCell<VecDeque<i64>>>>;
 
 pub trait DynObj { fn pull(&mut self) -> Option<i64>; fn box_clone(&self) -> Box<dyn DynObj>; }
 impl<S: Source<Output = i64> + Clone + 'static> DynObj for S {
@@ -39,10 +48,10 @@ impl Expr {
         match self {
             List(v) => format!("(EList [{}])", v.iter().map(z).collect::<Vec<_>>().join(";")),
             Chain(a, b) => format!("(EChain {} {})", a.coq(), b.coq()),
-            Take(a, n) => format!("(ETake {} {}%nat)", a.coq(), n), Skip(a, n) => format!("(ESkip {} {}%nat)", a.coq(), n),
+            Take(a, n) => format!("(ETake {} {}%nat)", a.coq(), (*n).min(40)), Skip(a, n) => format!("(ESkip {} {}%nat)", a.coq(), (*n).min(40)),
             Cycle(a) => format!("(ECycle {})", a.coq()), Const(v) => format!("(EConstant {})", z(v)),
-            Rep(v, n) => format!("(ERepeat {} {}%nat)", z(v), n), Inc(a, d) => format!("(EIncrement {} {})", z(a), z(d)),
-            PadC(a, v, c) => format!("(EPadConst {} {} {}%nat)", a.coq(), z(v), c), PadE(a, c) => format!("(EPadEdge {} {}%nat)", a.coq(), c),
+            Rep(v, n) => format!("(ERepeat {} {}%nat)", z(v), (*n).min(40)), Inc(a, d) => format!("(EIncrement {} {})", z(a), z(d)),
+            PadC(a, v, c) => format!("(EPadConst {} {} {}%nat)", a.coq(), z(v), (*c).min(40)), PadE(a, c) => format!("(EPadEdge {} {}%nat)", a.coq(), (*c).min(40)),
             Peek(a) => format!("(EPeek {})", a.coq()), Cache(a) => format!("(ECache {})", a.coq()), Rt(a) => format!("(ERoundTrip {})", a.coq()),
         }
     }
@@ -50,21 +59,24 @@ impl Expr {
         match self { List(_) | Const(_) | Rep(..) | Inc(..) => 0, Chain(a, b) => 1 + a.depth().max(b.depth()),
             Take(a, _) | Skip(a, _) | Cycle(a) | PadC(a, ..) | PadE(a, _) | Peek(a) | Cache(a) | Rt(a) => 1 + a.depth() }
     }
-    pub fn build(&self) -> DynSrc {
+    pub fn has_cycle(&self) -> bool { match self { Cycle(_) => true, Chain(a, b) => a.has_cycle() || b.has_cycle(), Take(a, _) | Skip(a, _) | PadC(a, ..) | PadE(a, _) | Peek(a) | Cache(a) | Rt(a) => a.has_cycle(), _ => false } }
+    pub fn build(&self) -> DynSrc { let mut l = vec![]; self.build_with(&mut l) }
+    /// builds the real adapters; every list leaf's buffer is registered in `leaves` (expression order)
+    pub fn build_with(&self, leaves: &mut Leaves) -> DynSrc {
         match self {
-            List(v) => DynSrc::new(FromIter::from(v.clone())),
-            Chain(a, b) => DynSrc::new(Chain::new(a.build(), b.build())),
-            Take(a, n) => DynSrc::new(Take::new(a.build(), *n)),
-            Skip(a, n) => DynSrc::new(Skip::new(a.build(), *n)),
-            Cycle(a) => DynSrc::new(Cycle::new(a.build())),
+            List(v) => { let h = Rc::new(RefCell::new(v.iter().cloned().collect::<VecDeque<i64>>())); leaves.push(h.clone()); DynSrc::new(FromIter::from(Leaf(h))) }
+            Chain(a, b) => DynSrc::new(Chain::new(a.build_with(leaves), b.build_with(leaves))),
+            Take(a, n) => DynSrc::new(Take::new(a.build_with(leaves), *n)),
+            Skip(a, n) => DynSrc::new(Skip::new(a.build_with(leaves), *n)),
+            Cycle(a) => DynSrc::new(Cycle::new(a.build_with(leaves))),
             Const(v) => DynSrc::new(Constant::new(*v)),
             Rep(v, n) => DynSrc::new(Repeat::new(*v, *n)),
             Inc(a, d) => DynSrc::new(Increment::new(*a, *d)),
-            PadC(a, v, c) => DynSrc::new(pad::constant::Pad::new(a.build(), *v, *c)),
-            PadE(a, c) => DynSrc::new(pad::edge::Pad::new(a.build(), *c)),
-            Peek(a) => DynSrc::new(Peek::<DynSrc, i64>::from(a.build())),
-            Cache(a) => DynSrc::new(Cache::<DynSrc, i64>::from(a.build())),
-            Rt(a) => DynSrc::new(FromIter::from(IntoIter::from(a.build()))),
+            PadC(a, v, c) => DynSrc::new(pad::constant::Pad::new(a.build_with(leaves), *v, *c)),
+            PadE(a, c) => DynSrc::new(pad::edge::Pad::new(a.build_with(leaves), *c)),
+            Peek(a) => DynSrc::new(Peek::<DynSrc, i64>::from(a.build_with(leaves))),
+            Cache(a) => DynSrc::new(Cache::<DynSrc, i64>::from(a.build_with(leaves))),
+            Rt(a) => DynSrc::new(FromIter::from(IntoIter::from(a.build_with(leaves)))),
         }
     }
     pub fn parse(s: &str) -> Expr { let b = s.as_bytes(); let mut p = 0; let e = parse_at(b, &mut p); assert!(p == b.len(), "trailing input in {}", s); e }
@@ -72,19 +84,20 @@ impl Expr {
 fn ident(b: &[u8], p: &mut usize) -> String { let s = *p; while *p < b.len() && (b[*p] as char).is_ascii_alphabetic() { *p += 1; } String::from_utf8(b[s..*p].to_vec()).unwrap() }
 fn expect(b: &[u8], p: &mut usize, c: u8) { assert!(*p < b.len() && b[*p] == c, "expected {} at {}", c as char, *p); *p += 1; }
 fn int(b: &[u8], p: &mut usize) -> i64 { let s = *p; if *p < b.len() && b[*p] == b'-' { *p += 1; } while *p < b.len() && b[*p].is_ascii_digit() { *p += 1; } std::str::from_utf8(&b[s..*p]).unwrap().parse().unwrap() }
+fn uint(b: &[u8], p: &mut usize) -> usize { let s = *p; while *p < b.len() && b[*p].is_ascii_digit() { *p += 1; } std::str::from_utf8(&b[s..*p]).unwrap().parse().unwrap() }
 fn parse_at(b: &[u8], p: &mut usize) -> Expr {
     let id = ident(b, p); expect(b, p, b'(');
     let e = match id.as_str() {
         "list" => { let mut v = vec![]; while b[*p] != b')' { if b[*p] == b' ' { *p += 1; continue; } v.push(int(b, p)); } List(v) }
         "chain" => { let a = parse_at(b, p); expect(b, p, b','); let c = parse_at(b, p); Chain(Box::new(a), Box::new(c)) }
-        "take" => { let a = parse_at(b, p); expect(b, p, b','); Take(Box::new(a), int(b, p) as usize) }
-        "skip" => { let a = parse_at(b, p); expect(b, p, b','); Skip(Box::new(a), int(b, p) as usize) }
+        "take" => { let a = parse_at(b, p); expect(b, p, b','); Take(Box::new(a), uint(b, p)) }
+        "skip" => { let a = parse_at(b, p); expect(b, p, b','); Skip(Box::new(a), uint(b, p)) }
         "cycle" => Cycle(Box::new(parse_at(b, p))),
         "const" => Const(int(b, p)),
-        "rep" => { let v = int(b, p); expect(b, p, b','); Rep(v, int(b, p) as usize) }
+        "rep" => { let v = int(b, p); expect(b, p, b','); Rep(v, uint(b, p)) }
         "inc" => { let v = int(b, p); expect(b, p, b','); Inc(v, int(b, p)) }
-        "padc" => { let a = parse_at(b, p); expect(b, p, b','); let v = int(b, p); expect(b, p, b','); PadC(Box::new(a), v, int(b, p) as usize) }
-        "pade" => { let a = parse_at(b, p); expect(b, p, b','); PadE(Box::new(a), int(b, p) as usize) }
+        "padc" => { let a = parse_at(b, p); expect(b, p, b','); let v = int(b, p); expect(b, p, b','); PadC(Box::new(a), v, uint(b, p)) }
+        "pade" => { let a = parse_at(b, p); expect(b, p, b','); PadE(Box::new(a), uint(b, p)) }
         "peek" => Peek(Box::new(parse_at(b, p))),
         "cache" => Cache(Box::new(parse_at(b, p))),
         "rt" => Rt(Box::new(parse_at(b, p))),
